@@ -48,6 +48,11 @@ func drawAllocator(prog *simrt.Stream, b Bounds) signal.Allocator {
 func drawInner(sim *simrt.Sim) {
 	sim.InnerG = []int{0, 4, 16, 64, 1024}[sim.Sched.Draw(5)]
 	sim.InnerBudget = 48
+	// Stall fault ("slow node"): a task pre-empted inside a library call may be
+	// held back for many steps, which is what check-then-act and ABA windows need.
+	if sim.InnerG > 0 {
+		sim.StallMax = []int{0, 8, 32, 128}[sim.Sched.Draw(4)]
+	}
 }
 
 // freshCheck is oracle 1 of C10/C11: b must be observationally equal to
